@@ -1399,6 +1399,9 @@ class Interp:
                 return default
             self._stub_gap(v, name)
             self.raise_py("AttributeError", f"type object '{v.name}' has no attribute '{name}'")
+        if isinstance(v, list) and name in ("first", "last"):
+            # xdsl's BlockOps view (`block.ops.first` / `.last`); the IR stubs keep the ops of a block in a plain list
+            return (v[0] if name == "first" else v[-1]) if len(v) > 0 else None
         if isinstance(v, ModuleV):
             return self.module_attr(self.load_module(v.name) if not v.loaded and v.name not in self.loading else v, name)
         if isinstance(v, NativeObj):
@@ -1433,6 +1436,14 @@ class Interp:
         raise Unsupported(f"attribute {name} on {type(v).__name__}")
 
     def bind(self, a, obj, cls):
+        if type(a).__name__ == "Def" and getattr(a, "kind", None) == "operand" and isinstance(obj, Obj) and "_opsegs" in obj.fields:
+            from .stubs.irdl import named_operand
+
+            # find the declared name this Def is bound to (class namespaces along the MRO)
+            for c in obj.cls.mro:
+                for n, v in c.ns.items():
+                    if v is a:
+                        return named_operand(self, obj, n)
         if isinstance(a, FuncV):
             if a.kind == "staticmethod":
                 return a
